@@ -265,6 +265,20 @@ pub proof fn lemma_store_final<V: Value>(e: Endian, c0: Cells<V>, a: u64, value:
     }
 }
 
+/// the map form of the view postcondition: the whole own-byte map is the old one overridden on the range
+pub proof fn lemma_own_map_override<V: Value>(e: Endian, c0: Cells<V>, c3: Cells<V>, a: u64, value: V)
+    requires
+        forall|x: u64| #[trigger] own_at(e, c3, x) == (if a <= x < a + vlen(value) { Some(vbyte(e, value, x - a)) } else { own_at(e, c0, x) }),
+    ensures own_map_of(e, c3) == override_bytes(own_map_of(e, c0), a, e, value),
+{
+    let m1 = own_map_of(e, c3);
+    let m2 = override_bytes(own_map_of(e, c0), a, e, value);
+    assert forall|x: u64| m1.contains_key(x) == m2.contains_key(x) && (m1.contains_key(x) ==> m1[x] == m2[x]) by {
+        assert(own_at(e, c3, x) == (if a <= x < a + vlen(value) { Some(vbyte(e, value, x - a)) } else { own_at(e, c0, x) }));
+    }
+    assert(m1 =~= m2);
+}
+
 impl<V> Memory<V>
 where
     V: Value,
@@ -283,6 +297,8 @@ where
         /*@wf*/ final(self).wf(),
         /*@view*/ (value.vbits() % 8 == 0 && value.vbits() != 0) ==> forall|x: u64| #[trigger] final(self).own(x) == (
             if address <= x < address + vlen(value) { Some(vbyte(old(self).endian, value, x - address)) } else { old(self).own(x) }),
+        /*@view_map*/ (value.vbits() % 8 == 0 && value.vbits() != 0) ==>
+            final(self).own_map() == override_bytes(old(self).own_map(), address, old(self).endian, value),
         /*@frame*/ final(self).endian == old(self).endian && final(self).backing == old(self).backing,
         /*@perm*/ forall|x: u64| (#[trigger] final(self).perm(x)) == old(self).perm(x),
 //@ enter
@@ -329,7 +345,10 @@ where
     }
 //@ before 0 `Ok(())`
     proof {
-        lemma_store_final(ge, c0, address, value, ph1, ph2, self.cells());
+        if tail_ok(ge, c0, address_after_write, ph1) && head_ok(ge, c0, address, ph2) && self.cells() == store_cells(c0, address, value, ph1, ph2) {
+            lemma_store_final(ge, c0, address, value, ph1, ph2, self.cells());
+            lemma_own_map_override(ge, c0, self.cells(), address, value);
+        }
     }
 //@ end
 }
